@@ -10,6 +10,8 @@ package toy
 import (
 	"encoding/binary"
 	"io"
+	"math/big"
+	"math/bits"
 
 	"github.com/bronlabs/bron-crypto/pkg/base/ct"
 )
@@ -23,7 +25,8 @@ var (
 	dlog map[uint64]uint64
 )
 
-// Setup fixes the toy parameters. q and 2q+1 must both be prime and q^2 < 2^63.
+// Setup fixes the toy parameters. q and 2q+1 must both be prime. For q < 2^24 a discrete-log table is built
+// (exact mode); larger q (up to 2^61) run without the table (Big mode: values are compared as tokens only).
 func Setup(q uint64) {
 	if !isPrime(q) || !isPrime(2*q+1) {
 		panic("toy.Setup: need q and 2q+1 prime")
@@ -31,27 +34,56 @@ func Setup(q uint64) {
 	Q = q
 	P = 2*q + 1
 	G = 4 % P // 4 = 2^2 is a quadratic residue, hence in the order-q subgroup; != 1 for p > 3
+	dlog = nil
+	Big = q >= 1<<24
+	if Big {
+		return
+	}
 	dlog = make(map[uint64]uint64, q)
 	x := uint64(1)
 	for k := uint64(0); k < q; k++ {
 		dlog[x] = k
-		x = x * G % P
+		x = mulmod(x, G, P)
 	}
 	if len(dlog) != int(q) {
 		panic("toy.Setup: generator does not have order q")
 	}
 }
 
-func isPrime(n uint64) bool {
-	if n < 2 {
-		return false
-	}
-	for d := uint64(2); d*d <= n; d++ {
-		if n%d == 0 {
-			return false
+// Big is true when no discrete-log table exists.
+var Big bool
+
+// SetupBig picks the largest q < 2^bitsN with q and 2q+1 prime.
+func SetupBig(bitsN uint) {
+	q := uint64(1)<<bitsN - 1
+	for ; ; q -= 2 {
+		if isPrime(q) && isPrime(2*q+1) {
+			break
 		}
 	}
-	return true
+	Setup(q)
+}
+
+func mulmod(a, b, m uint64) uint64 {
+	hi, lo := bits.Mul64(a%m, b%m)
+	_, r := bits.Div64(hi, lo, m)
+	return r
+}
+
+// InSubgroup reports whether v is in the order-q subgroup of Z_p^*.
+func InSubgroup(v uint64) bool {
+	if v == 0 || v >= P {
+		return false
+	}
+	if !Big {
+		_, ok := dlog[v]
+		return ok
+	}
+	return powmod(v, Q, P) == 1
+}
+
+func isPrime(n uint64) bool {
+	return new(big.Int).SetUint64(n).ProbablyPrime(24)
 }
 
 // Dlog returns the discrete logarithm of a subgroup element value.
@@ -65,9 +97,9 @@ func powmod(b, e, m uint64) uint64 {
 	b %= m
 	for e > 0 {
 		if e&1 == 1 {
-			r = r * b % m
+			r = mulmod(r, b, m)
 		}
-		b = b * b % m
+		b = mulmod(b, b, m)
 		e >>= 1
 	}
 	return r
@@ -95,8 +127,8 @@ func (e *Fq) Add(a, b *Fq)    { e.v = (a.v + b.v) % Q }
 func (e *Fq) Double(a *Fq)    { e.v = (a.v + a.v) % Q }
 func (e *Fq) Sub(a, b *Fq)    { e.v = (a.v + Q - b.v) % Q }
 func (e *Fq) Neg(a *Fq)       { e.v = (Q - a.v) % Q }
-func (e *Fq) Mul(a, b *Fq)    { e.v = a.v * b.v % Q }
-func (e *Fq) Square(a *Fq)    { e.v = a.v * a.v % Q }
+func (e *Fq) Mul(a, b *Fq)    { e.v = mulmod(a.v, b.v, Q) }
+func (e *Fq) Square(a *Fq)    { e.v = mulmod(a.v, a.v, Q) }
 func (e *Fq) SetZero()        { e.v = 0 }
 func (e *Fq) SetOne()         { e.v = 1 % Q }
 func (e *Fq) SetUint64(u uint64) { e.v = u % Q }
@@ -133,7 +165,7 @@ func (e *Fq) Bytes() []byte {
 func (e *Fq) SetBytesWide(data []byte) ct.Bool {
 	var acc uint64
 	for i := len(data) - 1; i >= 0; i-- {
-		acc = (acc*256 + uint64(data[i])) % Q
+		acc = (mulmod(acc, 256, Q) + uint64(data[i])) % Q
 	}
 	e.v = acc
 	return ct.True
@@ -179,11 +211,21 @@ func (e *Fq) Div(a, b *Fq) ct.Bool {
 	if bi.Inv(b) == ct.False {
 		return ct.False
 	}
-	e.v = a.v * bi.v % Q
+	e.v = mulmod(a.v, bi.v, Q)
 	return ct.True
 }
 
 func (e *Fq) Sqrt(a *Fq) ct.Bool {
+	if Big { // q = 3 mod 4 is not guaranteed: Tonelli-free fallback via exponent (q+1)/4 when applicable
+		if Q%4 == 3 {
+			r := powmod(a.v, (Q+1)/4, Q)
+			if mulmod(r, r, Q) == a.v%Q {
+				e.v = r
+				return ct.True
+			}
+		}
+		return ct.False
+	}
 	for r := uint64(0); r < Q; r++ {
 		if r*r%Q == a.v {
 			e.v = r
